@@ -23,7 +23,8 @@ namespace Nq.SmtpPolicyDoc
 open Nq Nq.SmtpSession Nq.CmdLineSpec
 
 /-- equal ignoring ASCII case: same length, and position by position the same letter -/
-def CiEq (s t : Bytes) : Prop := List.Forall₂ (fun x y => ciByteB x y = true) s t
+def CiEq (s t : Bytes) : Prop :=
+  s.length = t.length ∧ ∀ (i : Nat) (x y : Byte), s[i]? = some x → t[i]? = some y → ciByteB x y = true
 
 /-- `d` is the host part of address `a`: what follows its last `@` -/
 def HostOf (a d : Bytes) : Prop := ∃ l, a = l ++ AT :: d ∧ AT ∉ d
